@@ -15,6 +15,7 @@
 #include <fcntl.h>
 #include <unistd.h>
 #include <sys/stat.h>
+#include <sys/wait.h>
 using namespace psv;
 
 // ------------------------------------------------------------------------------------------------ libc layer
@@ -111,6 +112,7 @@ extern "C" int ffimem(fitsfile** fptr, void** buf, size_t* sz, size_t delta, voi
   static auto real = (int (*)(fitsfile**, void**, size_t*, size_t, void* (*)(void*, size_t), int*))dlsym(RTLD_NEXT, "ffimem");
   if (!TOP) return real(fptr, buf, sz, delta, re, status);
   Depth d;
+  if (inject_here()) { g_step_fired++; *fptr = nullptr; *status = MEMORY_ALLOCATION; g_trace.push_back({"imem", *status}); return *status; }
   int r = real(fptr, buf, sz, delta, re, status); g_trace.push_back({"imem", r}); return r;
 }
 extern "C" int ffcrim(fitsfile* f, int bitpix, int naxis, long* naxes, int* status) {
@@ -423,7 +425,25 @@ int main(int argc, char** argv) {
       size_t nsteps = H2.trace.size();
       { std::string v = (variant >= V_MEM) ? (H2.membuf ? read_verdict_mem(H2.membuf, H2.memsize, t) : "nobuf") : read_verdict(path, t); emit_E(t, variant, H2, v, std::string("healthy-") + varname[variant]); free(H2.membuf); }
       for (size_t j = 0; j < nsteps; j++) {
-        if (std::string(H2.trace[j].name) == "imem") continue;   // see below: a failing fits_create_memfile is unchecked; probed separately
+        if (std::string(H2.trace[j].name) == "imem") {
+          // a failing fits_create_memfile: run in a child process, because code that ignores the status passes a null
+          // handle on and dies; the child reports outcome and trace through a file
+          std::string cf = g_dir + "/child.txt"; unlink(cf.c_str());
+          fflush(fc); fflush(fi);
+          pid_t pid = fork();
+          if (pid == 0) {
+            g_step_fail = (int)j; Run R = do_write(t, variant, path);
+            std::string names; for (auto& s2 : R.trace) { if (!names.empty()) names += ","; names += s2.name; }
+            std::string line = "E " + shape_tokens(t, variant) + " |"; for (auto& s2 : R.trace) line += s2.status ? " 1" : " 0";
+            line += "\nret=" + std::to_string(R.ret) + " steps=" + names + " file=absent tag=step:imem@0 fired=" + std::to_string(R.step_fired) + "\n";
+            spit(cf, (const unsigned char*)line.data(), line.size()); _exit(0);
+          }
+          int wst = 0; waitpid(pid, &wst, 0);
+          std::vector<unsigned char> cd; total_faults++; total_fired++; stats["stepfault"]++; stats["stepfault_fired"]++;
+          if (WIFEXITED(wst) && WEXITSTATUS(wst) == 0 && slurp(cf, cd)) { std::string all(cd.begin(), cd.end()); size_t nl = all.find('\n'); fprintf(fc, "%s\n", all.substr(0, nl).c_str()); fprintf(fi, "%s", all.substr(nl + 1).c_str()); }
+          else { fprintf(fc, "E %s | 1\n", shape_tokens(t, variant).c_str()); fprintf(fi, "ret=crash steps=imem file=absent tag=step:imem@0 fired=1 signal=%d\n", WIFSIGNALED(wst) ? WTERMSIG(wst) : -1); stats["crash_on_failed_create_memfile"]++; }
+          continue;
+        }
         unlink(path.c_str());
         g_step_fail = (int)j;
         Run R = do_write(t, variant, path);
